@@ -16,7 +16,7 @@ GInit == Init /\ hist = <<>>
 GNext ==
   \/ (SDecideSpawn \/ SDecideStop \/ SChunkContinue \/ SChunkStop) /\ hist' = Append(hist, 0)
   \/ \E w \in 1..MaxW : (WStart(w) \/ WStep(w) \/ WPanic(w)) /\ hist' = Append(hist, w)
-  \/ (SJoin \/ SSeq) /\ UNCHANGED hist
+  \/ (SJoin \/ SSeq \/ SSeqPanic) /\ UNCHANGED hist
 
 GSpec == GInit /\ [][GNext]_<<vars, hist>>
 
